@@ -392,6 +392,11 @@ pub const AMB_LOC_2: step::Location = step::Location { path: "vlab/amb.rs", line
 pub const OK_LOC: step::Location = step::Location { path: "vlab/ok.rs", line: 7, column: 1 };
 pub const RE_OK: &str = "^(?:ok|amb) .*$";
 pub const RE_AMB: &str = "^amb .*$";
+/// `dup` steps are ambiguous between two definitions with the *same* regex text (copy-pasted
+/// attribute) that differ only in their location.
+pub const RE_DUP: &str = "^dup .*$";
+pub const DUP_LOC_1: step::Location = step::Location { path: "vlab/dup.rs", line: 5, column: 1 };
+pub const DUP_LOC_2: step::Location = step::Location { path: "vlab/dup_copy.rs", line: 6, column: 1 };
 
 pub fn build_runner(case: &RCase) -> runner::Basic<W> {
     let re_ok = regex::Regex::new(RE_OK).unwrap();
@@ -403,6 +408,14 @@ pub fn build_runner(case: &RCase) -> runner::Basic<W> {
         .given(Some(AMB_LOC_2), re_amb.clone(), step_fn2)
         .when(Some(AMB_LOC_2), re_amb.clone(), step_fn2)
         .then(Some(AMB_LOC_2), re_amb, step_fn2);
+    let re_dup = regex::Regex::new(RE_DUP).unwrap();
+    let coll = coll
+        .given(Some(DUP_LOC_1), re_dup.clone(), step_fn2)
+        .given(Some(DUP_LOC_2), re_dup.clone(), step_fn2)
+        .when(Some(DUP_LOC_1), re_dup.clone(), step_fn2)
+        .when(Some(DUP_LOC_2), re_dup.clone(), step_fn2)
+        .then(Some(DUP_LOC_1), re_dup.clone(), step_fn2)
+        .then(Some(DUP_LOC_2), re_dup, step_fn2);
     let mut r = runner::Basic::<W>::default().steps(coll);
     if case.conc_builder_set {
         r = r.max_concurrent_scenarios(case.conc_builder);
